@@ -560,6 +560,12 @@ class HomeKitConnection:
         """
         if self.transport:
             self.transport.close()
+        if self.protocol:
+            # transport.close() only schedules connection_lost() once the write
+            # buffer is empty; with unsent data (the accessory stopped reading)
+            # the outstanding requests would otherwise wait for their own 30 s
+            # timers on a connection we have already forgotten.
+            self.protocol.close()
         self.transport = None
         self.protocol = None
 
